@@ -180,6 +180,43 @@ func (g *Gen) identityRefs(r *R, nsub int) []*Ref {
 	return refs
 }
 
+// typeTwin: the same text under a different type chain.
+func typeTwin(r *R) *R {
+	c := cloneR(r)
+	switch c.Op {
+	case "new":
+		c.Op = "stdnew"
+		return c
+	case "stdnew":
+		c.Op = "pkgnew"
+		return c
+	case "wrap":
+		c.Op = "withmessage"
+		return c
+	case "hint":
+		c.Op = "detail"
+		return c
+	}
+	return &R{Op: "hint", Kids: []*R{c}, S: []string{"twin"}}
+}
+
+// twinRefs appends, for up to k recipe references, a type twin, and returns the IsAny observations
+// (both orders) over each pair.
+func twinRefs(refs []*Ref, k int) ([]*Ref, []Obs) {
+	var obs []Obs
+	n := len(refs)
+	for i := 0; i < n && k > 0; i++ {
+		if refs[i].Kind != "recipe" || refs[i].R == nil || refs[i].R.Op == "nil" {
+			continue
+		}
+		refs = append(refs, &Ref{Kind: "recipe", R: typeTwin(refs[i].R)})
+		j := len(refs) - 1
+		obs = append(obs, Obs{Name: "isany", Refs: []int{i, j}}, Obs{Name: "isany", Refs: []int{j, i}})
+		k--
+	}
+	return refs, obs
+}
+
 func isObs(n int) []Obs {
 	var out []Obs
 	for i := 0; i < n; i++ {
@@ -374,10 +411,13 @@ func propCases(prop string, g *Gen, n int) []*Case {
 		for i := 0; i < n; i++ {
 			r := g.Tree(1 + g.r.intn(5))
 			refs := g.identityRefs(r, 3)
+			// the whole error rebuilt, and references of the same text but another type next to the right one
+			refs = append(refs, &Ref{Kind: "recipe", R: cloneR(r)})
+			refs, anyObs := twinRefs(refs, 3)
 			hops := [][][]string{knowing1, g.hopSeq(1+g.r.intn(2), true), g.hopSeq(1+g.r.intn(2), false)}
-			obs := isObs(len(refs))
+			obs := append(isObs(len(refs)), anyObs...)
 			for _, h := range hops {
-				obs = append(obs, Obs{Name: "hop", Procs: h, Sub: isObs(len(refs))})
+				obs = append(obs, Obs{Name: "hop", Procs: h, Sub: append(isObs(len(refs)), anyObs...)})
 			}
 			add(&Case{R: r, Refs: refs, Obs: obs, Oracles: []string{"C02"}, Hops: hops})
 		}
@@ -448,6 +488,17 @@ func propCases(prop string, g *Gen, n int) []*Case {
 					op = "secondary"
 				}
 				r = g.Wrapper(&R{Op: op, Kids: []*R{x, sec}}, 1)
+			case 5:
+				// an empty replacement message is still a replacement
+				h := g.richHidden()
+				if g.r.chance(50) {
+					r = &R{Op: "handledmsg", Kids: []*R{h}, S: []string{""}}
+				} else {
+					r = &R{Op: "handledindomainmsg", Kids: []*R{h}, S: []string{"error domain: \"" + g.word() + "\"", ""}}
+				}
+				if g.r.chance(50) {
+					r = g.Wrapper(r, 1)
+				}
 			}
 			v, ok := g.swapHidden(r)
 			if !ok {
@@ -515,6 +566,28 @@ func propCases(prop string, g *Gen, n int) []*Case {
 				refs = append(refs, &Ref{Kind: "recipe", R: cloneR(ref)}, &Ref{Kind: "recipe", R: g.perturb(ref)},
 					&Ref{Kind: "recipe", R: cloneR(e)})
 			}
+			if i%10 == 3 {
+				// Mark(e, ref) where e already matches ref, but only through its own Is method:
+				// the mark must still make e match everything equivalent to ref
+				tag := int64(g.r.intn(3))
+				mk := func(msg string, t int64) *R {
+					return &R{Op: "uleaf", S: []string{"istag", msg}, I: []int64{t}, Strs: []string{}}
+				}
+				e := mk(g.sU(), tag)
+				refMsg := g.sU()
+				ref := mk(refMsg, tag)
+				var inner *R = e
+				if g.r.chance(50) {
+					inner = g.Wrapper(e, 1)
+				}
+				r = &R{Op: "mark", Kids: []*R{inner, ref}}
+				if g.r.chance(50) {
+					r = g.Wrapper(r, 1)
+				}
+				refs = []*Ref{{Kind: "recipe", R: mk(refMsg, tag+1)}, {Kind: "recipe", R: mk(refMsg, tag)},
+					{Kind: "recipe", R: cloneR(e)}, {Kind: "recipe", R: mk(refMsg+"x", tag+1)}}
+				refs = append(refs, g.identityRefs(r, 2)...)
+			}
 			obs := isObs(len(refs))
 			for k := 0; k+2 < len(refs); k += 3 {
 				obs = append(obs, Obs{Name: "isany", Refs: []int{k, k + 1, k + 2}})
@@ -563,6 +636,12 @@ func propCases(prop string, g *Gen, n int) []*Case {
 		obs = append(obs, Obs{Name: "hop", Procs: knowing1, Sub: sub}, Obs{Name: "hop", Procs: knowing2, Sub: sub})
 		for _, r := range enumPairs(g) {
 			add(&Case{R: r, Obs: obs, Oracles: []string{"C11"}})
+		}
+		// annotation texts that look like format strings
+		for _, op := range []string{"hint", "detail", "wrap", "withmessage", "domain"} {
+			for _, txt := range []string{"95% of quota", "%d items %s", "100%"} {
+				add(&Case{R: g.Wrapper(&R{Op: op, Kids: []*R{g.Tree(1)}, S: []string{txt}}, g.r.intn(2)), Obs: obs, Oracles: []string{"C11"}})
+			}
 		}
 		for i := 0; i < n; i++ {
 			add(&Case{R: g.Tree(1 + g.r.intn(5)), Obs: obs, Oracles: []string{"C11"}})
